@@ -188,6 +188,12 @@ pub mod net {
         });
     }
 
+    /// The next socket bound to port 0 gets this port if it is free (a program that restarts from a
+    /// fixed local port).
+    pub fn set_next_port(port: u16) {
+        SWITCH.with(|s| s.borrow_mut().next_port = port);
+    }
+
     /// Drains the log of datagrams sent since the last call.
     pub fn take_wire() -> Vec<WireDatagram> {
         SWITCH.with(|s| std::mem::take(&mut s.borrow_mut().wire))
